@@ -70,7 +70,9 @@ class Tr:
         self.tmp = 0
         self.consts = {}
         import tokenize as T
-        for n in ("NAME", "OP", "STRING", "COMMENT"):
+        for n in ("NAME", "OP", "STRING", "COMMENT", "NEWLINE", "INDENT", "DEDENT", "ENDMARKER"):
+            if not hasattr(P, n):
+                continue
             if getattr(P, n) != getattr(T, n):
                 raise Unsupported(f"{n} rebound")
             self.consts[n] = getattr(T, n)
@@ -298,6 +300,10 @@ class Tr:
                 if a.is_static:
                     return (a.static in b.static) != neg
                 t = "(str_in [" + "; ".join(slit(x) for x in b.static) + f"] {a.text})"
+            elif b.is_static and isinstance(b.static, tuple) and all(isinstance(x, int) and not isinstance(x, bool) for x in b.static):
+                if a.is_static:
+                    return (a.static in b.static) != neg
+                t = "(z_in [" + "; ".join(zlit(x) for x in b.static) + f"] {self.render(a, 'Z')})"
             else:
                 raise Unsupported("`in` operand")
             return f"(negb {t})" if neg else t
@@ -535,10 +541,8 @@ def gen_constants():
     lines = ["(* GENERATED by tools/vlib/c20_preparse2coq.py from the running interpreter's `tokenize` module and",
              "   vyper/ast/pre_parser.py (ParserState, keyword tables) -- do not edit *)",
              "From Coq Require Import ZArith List String.", "Import ListNotations.", "Open Scope Z_scope."]
-    for n in ("NAME", "OP", "STRING", "COMMENT"):
-        lines.append(f"Definition T_{n} : Z := {tr.consts[n]}.")
     import tokenize as T
-    for n in ("INDENT", "DEDENT"):
+    for n in ("NAME", "OP", "STRING", "COMMENT", "NEWLINE", "INDENT", "DEDENT", "ENDMARKER"):
         lines.append(f"Definition T_{n} : Z := {getattr(T, n)}.")
     for n, v in tr.states.items():
         lines.append(f"Definition S_{n} : Z := {v}.")
